@@ -1,0 +1,116 @@
+//! Verification seam (compiled only with `--cfg enum_tools_verif`, never in normal builds).
+//!
+//! A stand-in for `std::collections::HashMap` whose *iteration order is chosen by a scheduler*:
+//! entries are kept in insertion order and every `iter()` / `into_iter()` asks the thread-local
+//! scheduler for a permutation. Without an installed scheduler the order is the insertion order, so
+//! a hooks-on build behaves deterministically. /verif explores all permutations to show that the
+//! expansion does not depend on hash-map iteration order.
+
+use std::borrow::Borrow;
+use std::cell::RefCell;
+
+thread_local! {
+    static SCHEDULER: RefCell<Option<Box<dyn FnMut(usize) -> Vec<usize>>>> = RefCell::new(None);
+}
+
+/// Install (or remove) the scheduler: called with the number of entries, returns a permutation of `0..n`.
+#[allow(dead_code)]
+pub fn set_scheduler(s: Option<Box<dyn FnMut(usize) -> Vec<usize>>>) {
+    SCHEDULER.with(|c| *c.borrow_mut() = s);
+}
+
+fn order(n: usize) -> Vec<usize> {
+    let p = SCHEDULER.with(|c| c.borrow_mut().as_mut().map(|f| f(n)));
+    match p {
+        Some(p) => {
+            let mut seen = vec![false; n];
+            assert!(p.len() == n && p.iter().all(|&i| i < n && !std::mem::replace(&mut seen[i], true)), "scheduler returned a non-permutation");
+            p
+        }
+        None => (0..n).collect(),
+    }
+}
+
+pub struct HashMap<K, V> {
+    entries: Vec<(K, V)>,
+}
+
+#[allow(dead_code)]
+impl<K: Eq, V> HashMap<K, V> {
+    pub fn new() -> Self {
+        HashMap { entries: Vec::new() }
+    }
+
+    pub fn insert(&mut self, k: K, v: V) -> Option<V> {
+        for e in self.entries.iter_mut() {
+            if e.0 == k {
+                return Some(std::mem::replace(&mut e.1, v));
+            }
+        }
+        self.entries.push((k, v));
+        None
+    }
+
+    pub fn remove<Q: ?Sized + Eq>(&mut self, k: &Q) -> Option<V>
+    where
+        K: Borrow<Q>,
+    {
+        let i = self.entries.iter().position(|e| e.0.borrow() == k)?;
+        Some(self.entries.remove(i).1)
+    }
+
+    pub fn get<Q: ?Sized + Eq>(&self, k: &Q) -> Option<&V>
+    where
+        K: Borrow<Q>,
+    {
+        self.entries.iter().find(|e| e.0.borrow() == k).map(|e| &e.1)
+    }
+
+    pub fn contains_key<Q: ?Sized + Eq>(&self, k: &Q) -> bool
+    where
+        K: Borrow<Q>,
+    {
+        self.get(k).is_some()
+    }
+
+    pub fn len(&self) -> usize {
+        self.entries.len()
+    }
+
+    pub fn is_empty(&self) -> bool {
+        self.entries.is_empty()
+    }
+
+    pub fn iter(&self) -> std::vec::IntoIter<(&K, &V)> {
+        let v: Vec<(&K, &V)> = order(self.entries.len()).into_iter().map(|i| (&self.entries[i].0, &self.entries[i].1)).collect();
+        v.into_iter()
+    }
+
+    pub fn keys(&self) -> impl Iterator<Item = &K> {
+        self.iter().map(|e| e.0)
+    }
+
+    pub fn values(&self) -> impl Iterator<Item = &V> {
+        self.iter().map(|e| e.1)
+    }
+}
+
+impl<K: Eq, V> IntoIterator for HashMap<K, V> {
+    type Item = (K, V);
+    type IntoIter = std::vec::IntoIter<(K, V)>;
+
+    fn into_iter(self) -> Self::IntoIter {
+        let mut slots: Vec<Option<(K, V)>> = self.entries.into_iter().map(Some).collect();
+        let v: Vec<(K, V)> = order(slots.len()).into_iter().map(|i| slots[i].take().unwrap()).collect();
+        v.into_iter()
+    }
+}
+
+impl<'a, K: Eq, V> IntoIterator for &'a HashMap<K, V> {
+    type Item = (&'a K, &'a V);
+    type IntoIter = std::vec::IntoIter<(&'a K, &'a V)>;
+
+    fn into_iter(self) -> Self::IntoIter {
+        self.iter()
+    }
+}
